@@ -1,4 +1,5 @@
 import Cpppo.Proofs.ClientRx
+import Cpppo.Generated.Tables
 
 /-!
 # C13 — Under any connection fault the client never pairs a reply with the wrong request
@@ -121,13 +122,6 @@ theorem complete_exchange (P : Frame → Resp) (depth index : Nat) (issued : Lis
 
 /-! ### the whole exchange, Register included -/
 
-/-- `connector( ... )` then `pipeline( ... )` on a connection that will deliver `evs` -/
-def exchange (P : Frame → Resp) (depth : Nat) (issued : List Iss) (evs : List Ev) :
-    Except ConnErr (List Res × End) :=
-  match connect evs with
-  | .error e => .error e
-  | .ok st => .ok ((pipeline P depth 0 issued st).1, (pipeline P depth 0 issued st).2.1)
-
 /-- **Every cut position of the server-to-client stream** `reg :: fs`, delivered in one block: inside the
 Register reply the connector is not created (and which exception says so); behind it the operations see
 the rest of the prefix and `cut_yields_prefix` applies. -/
@@ -135,13 +129,8 @@ theorem exchange_cut (P : Frame → Resp) (depth : Nat) (issued : List Iss) (reg
     (k : Nat) (closed : Bool) (hr : IsRegister reg) (hs : Served P fs)
     (hm : AllMatch issued (fs.flatMap (colsOf P))) :
     exchange P depth issued [.data ((stream (reg :: fs)).take k), termEv closed] =
-      if (encodeFrame reg).length ≤ k then
-        .ok ((issued.zip ((fs.take (whole (k - (encodeFrame reg).length) fs)).flatMap (colsOf P))).map mkRes,
-             if issued.length ≤ ((fs.take (whole (k - (encodeFrame reg).length) fs)).flatMap (colsOf P)).length
-             then .ok else .error (cutErr closed (leftover (k - (encodeFrame reg).length) fs)))
-      else .error (if k = 0 then (if closed then .noenip else .noresponse)
-                   else (if closed then .rxerror else .partialHeld)) := by
-  unfold exchange
+      exchangeCutSpec P issued reg fs k closed := by
+  unfold exchange exchangeCutSpec
   rw [connect_cut reg fs k closed hr]
   by_cases hk : (encodeFrame reg).length ≤ k
   · simp only [hk, if_true]
@@ -150,6 +139,18 @@ theorem exchange_cut (P : Frame → Resp) (depth : Nat) (issued : List Iss) (reg
     unfold cutState at h1 h2
     rw [h1, h2]
   · simp only [hk, if_false]
+
+/-- … and delivered in blocks of any sizes: the statement the check evaluates on every unmutated exchange
+(`IsRegister`, `Served`, `AllMatch` are decided by the driver on the real byte streams). -/
+theorem exchange_cut_segmented (P : Frame → Resp) (depth : Nat) (issued : List Iss) (reg : Frame)
+    (fs : List Frame) (k : Nat) (closed : Bool) (evs : List Ev)
+    (hj : joinData evs = (stream (reg :: fs)).take k) (ha : afterData evs = [termEv closed])
+    (hr : IsRegister reg) (hs : Served P fs) (hm : AllMatch issued (fs.flatMap (colsOf P))) :
+    exchange P depth issued evs = exchangeCutSpec P issued reg fs k closed := by
+  rw [← exchange_cut P depth issued reg fs k closed hr hs hm]
+  apply exchange_congr
+  · simp [joinData, hj, termEv]; cases closed <;> simp [joinData]
+  · simp [afterData, ha, termEv]; cases closed <;> simp [afterData]
 
 /-! ### the proxy's gateway -/
 
@@ -267,6 +268,7 @@ theorem proxy_recovers (P : Frame → Resp) (depth : Nat) (conns : List (List Ev
     (proxyUse P depth conns p issued).2 =
       .ran p.opened ((issued.zip (fs.flatMap (colsOf P))).map mkRes) .ok := by
   have hx := exchange_cut P depth issued reg fs (stream (reg :: fs)).length closed hr hs hm
+  unfold exchangeCutSpec at hx
   rw [List.take_length] at hx
   have hlen : (encodeFrame reg).length ≤ (stream (reg :: fs)).length := by
     rw [stream_cons, List.length_append]; omega
@@ -358,5 +360,27 @@ example : (proxyRun parseFrame 2
         | .connfail n _ => (n, 0, .error .rxerror)
         | .refused => (99, 0, .ok)) =
     [(0, 1, .error .rxerror), (1, 3, .ok)] := by decide +kernel
+
+/-! ### Tie to what the live source says (regenerated on every run by `harness/extract.d/clientrx.py`) -/
+
+/-- (offset, width) of consecutive fields of the given widths -/
+def layoutOf : Nat → List Nat → List (Nat × Nat)
+  | _, [] => []
+  | o, w :: ws => (o, w) :: layoutOf (o + w) ws
+
+/-- the header layout probed on the live `enip_machine` (field order, offsets, widths, total length, the
+length field announcing the payload) is the one `takeFrame` / `encodeFrame` use; the command and service
+codes of the model are those of the live parser tables; the sender context is NUL-padded to 8 bytes and
+NUL-stripped on receipt -/
+theorem generated_constants_agree :
+    Generated.crxHeaderLayout = layoutOf 0 [2, 2, 4, 4, 8, 4] ∧
+    Generated.crxHeaderFields = ["command", "length", "session_handle", "status", "sender_context", "options"] ∧
+    Generated.crxHeaderLen = 24 ∧
+    (∀ f : Frame, f.WF → (encodeFrame f).length = Generated.crxHeaderLen + f.payload.length) ∧
+    cmdRegister = Generated.crxCmdRegister ∧ cmdSendRRData ∈ Generated.crxCmdSendData ∧
+    serviceMultipleRpy = Generated.crxMultipleRpy ∧ dataReplyServices = Generated.crxDataRpy ∧
+    Generated.crxContextPadsTo8StripsNul = true := by
+  refine ⟨by decide, by decide, by decide, ?_, by decide, by decide, by decide, by decide, by decide⟩
+  intro f hf; exact encodeFrame_length f hf
 
 end Cpppo.ClientRx
